@@ -58,9 +58,7 @@ func (s *Service) onWebSocketRequest(w http.ResponseWriter, r *http.Request) {
 // streams 请求处理(websocket connect,flv,mu38,ts)
 func (s *Service) onStreamsRequest(w http.ResponseWriter, r *http.Request) {
 	// 检测 websocket 请求
-	if r.Method == "GET" &&
-		strings.ToLower(r.Header.Get("Connection")) == "upgrade" &&
-		strings.ToLower(r.Header.Get("Upgrade")) == "websocket" {
+	if isWebSocketUpgrade(r) {
 		s.onWebSocketRequest(w, r)
 		return
 	}
@@ -102,13 +100,22 @@ func (s *Service) streamInterceptor(w http.ResponseWriter, r *http.Request) bool
 	return false
 }
 
+// 是否是 websocket 接入请求
+func isWebSocketUpgrade(r *http.Request) bool {
+	return r.Method == "GET" &&
+		strings.ToLower(r.Header.Get("Connection")) == "upgrade" &&
+		strings.ToLower(r.Header.Get("Upgrade")) == "websocket"
+}
+
 // 验证用户是否有权限播放指定的流
 func permissionInterceptor(w http.ResponseWriter, r *http.Request) bool {
 	userName := r.Header.Get(usernameHeaderKey)
 	u := auth.Get(userName)
 
 	streamPath, ext := extractStreamPathAndExt(r.URL.Path)
-	if ext == ".ts" { // hls 片段的地址是 <流路径>/<序号>.ts，权限按流路径判断
+	// hls 片段的地址是 <流路径>/<序号>.ts，权限按流路径判断；
+	// websocket 接入不是取片段：它访问的流就是去掉后缀的路径，必须按该路径判断
+	if ext == ".ts" && !isWebSocketUpgrade(r) {
 		streamPath = path.Dir(streamPath)
 	}
 
